@@ -99,6 +99,8 @@ PROPS = {
              "checks": {"quick": 3000, "thorough": 150000}, "shards": {"quick": 6, "thorough": 8}},
             {"name": "c03-decorator", "pkg": DECORATOR, "tests": ["TestVerifC03Decorator"],
              "checks": {"quick": 1600, "thorough": 60000}, "shards": {"quick": 4, "thorough": 6}},
+            {"name": "c03-restart", "pkg": COMPOSITE, "tests": ["TestVerifC03RestartChildCache"],
+             "checks": {"quick": 18, "thorough": 96}, "shards": {"quick": 6, "thorough": 12}, "timeout": {"quick": 600, "thorough": 3400}},
         ],
     },
     "C04": {
@@ -323,7 +325,7 @@ PROPS = {
 RULE_ADDENDA = {
     "C01": "Also generated: hook answers carrying a status stanza / own annotations / echoed observed annotations; discovery order; debug-verbosity logging; a matching orphan appearing under a replicated child name; scale-to-zero, foreign re-creation, scale back.",
     "C02": "Also generated: desired children carrying a plain owner or a foreign controller reference; an edit of the parent selector (hook following) between syncs; writes to objects the same sync released are judged separately from the known ownership-transfer finding.",
-    "C03": "Also generated: an ignored spec.selector on parents of generateSelector controllers; hook-set annotations; discovery order. A declared child kind hidden from discovery for one sync; the parent deleted while the parent cache is stale.",
+    "C03": "Also generated: an ignored spec.selector on parents of generateSelector controllers; hook-set annotations; discovery order. A declared child kind hidden from discovery for one sync; the parent deleted while the parent cache is stale. A separate job on the real start-up path: a restarted controller whose child LIST is held back for 120-400 ms (thorough: also 11 s) must show every sync-hook call the complete set of existing children.",
     "C04": "Also generated: the parent replaced by an object with another selector; an owned child relabelled; a co-owner reference added to the object of a chosen request right before it. Negative-only selectors with unlabeled children; a 503 on the fresh parent read before an adoption.",
     "C06": "Also generated: desired children with a status stanza, hook-set annotations or an explicitly empty list; an injected name-keyed list entry; someone already setting the field (and value) the hook is about to add; debug-verbosity logging.",
     "C07": "Also generated: hooks without any status; mixed matchLabels/matchExpressions selectors; condition styles of healthy children (timestamps with and without zone, a malformed neighbour condition). Purely additive edits of a revisioned field (a key appears / disappears).",
